@@ -84,6 +84,22 @@ fn run_history_with(c: &CacheCase, csv_dir: Option<&std::path::Path>, failing_wr
     let shared: acb::util::rc::RcRefCell<HashMap<u32, Vec<DailyRate>>> = RcRefCellT::new(HashMap::new());
     let kind = if failing_writes { "cache whose writes fail" } else if csv_dir.is_some() { "csv-file cache" } else { "in-memory cache" };
     let mut prev_unforced = false;
+    // "any cache state an earlier run can leave behind" includes an interrupted first download: a left-over, truncated temporary file
+    // of the year the first look-up needs (cut inside a rate) and no cache file yet.  For a third of the CSV-directory histories.
+    if let (Some(dir), Some(run0)) = (csv_dir, c.runs.first()) {
+        if let Some(d0) = run0.lookups.first() {
+            if crate::engine::hash_str(&c.to_json().dump()) % 3 == 0 {
+                let y = d0.year();
+                let mut text = String::new();
+                let mut d = crate::fxfake::ymd(y, 1, 1);
+                let stop = (*d0 + Duration::days(2)).min(run0.today);
+                while d < stop && d.year() == y { if let Some(r) = c.cal.published(d) { text += &format!("{d},{r}\n"); } else { text += &format!("{d},0\n"); } d = d + Duration::days(1); }
+                // cut inside the digits of the last published rate
+                if let Some(pos) = text.trim_end().rfind(',') { let keep = (pos + 3).min(text.trim_end().len()); text.truncate(keep); }
+                if !text.is_empty() { let _ = std::fs::write(dir.join(format!("rates-{y}.csv.tmp")), &text); obs.class("left-over-truncated-temporary-file"); }
+            }
+        }
+    }
     for (ri, run) in c.runs.iter().enumerate() {
         crate::observe::reset_globals(run.today);
         let cutoff = if run.incl_today { run.today + Duration::days(1) } else { run.today };
